@@ -2,4 +2,10 @@
 (* Constant-level tables derived from Schema once per TLC run (TLC evaluates them at start-up). *)
 EXTENDS Schema, Regular
 ModelOf == [t \in CMTypes |-> [A |-> CM[t], P |-> Plus(CM[t]), FD |-> FirstDown(CM[t])]]
+\* element classes without element content (simple types, simple content, empty types): the language is {<<>>}, every
+\* child must be refused by a checked element
+EmptyAutomaton == [lab |-> <<>>, first |-> {}, last |-> {}, nullable |-> TRUE, follow |-> <<>>]
+EmptyModel == [A |-> EmptyAutomaton, P |-> <<>>, FD |-> {}]
+ModelFor(t) == IF t \in CMTypes THEN ModelOf[t] ELSE EmptyModel
+LeavesFor(t) == IF t \in DOMAIN Leaves THEN Leaves[t] ELSE <<>>
 ====
